@@ -7,7 +7,16 @@ import (
 	"io"
 	"net"
 	"sync"
+	"sync/atomic"
+	"time"
 )
+
+// writeReturnDelay (ns): the server side's Write hands the bytes to the peer at once and returns this much later — a
+// socket whose write call comes back after the peer has already seen (and may have answered) the data.
+var writeReturnDelay int64
+
+// SetWriteReturnDelay sets the delay for all server-side connections (0 = off).
+func SetWriteReturnDelay(d time.Duration) { atomic.StoreInt64(&writeReturnDelay, int64(d)) }
 
 type addr string
 
@@ -60,6 +69,14 @@ func (s *srvConn) Read(p []byte) (int, error) {
 		if n2, err2, ok := s.fromInject(p); ok {
 			return n2, err2
 		}
+	}
+	return n, err
+}
+
+func (s *srvConn) Write(p []byte) (int, error) {
+	n, err := s.Conn.Write(p)
+	if d := atomic.LoadInt64(&writeReturnDelay); d > 0 && err == nil {
+		time.Sleep(time.Duration(d))
 	}
 	return n, err
 }
